@@ -375,6 +375,9 @@ func visitInstr(fr *frame, instr ssa.Instruction) continuation {
 			e.rtPanic("invalid memory address or nil pointer dereference")
 		}
 		al, isAlloc := instr.Addr.(*ssa.Alloc)
+		if (!isAlloc || al.Heap) && e.race != nil && e.race.on {
+			e.raceCell(addr, true)
+		}
 		e.storeInto(addr, fr.get(instr.Val), !isAlloc || al.Heap)
 	case *ssa.If:
 		succ := 1
